@@ -190,11 +190,14 @@ InitRes(s, e) ==
                              cons |-> {<<e.num, e.root, e.time>>}]]
   ELSE [ok |-> FALSE, st |-> s]
 
-StepRes(s, h_, e) == IF e.act = "Init" THEN InitRes(s, e) ELSE HdrRes(s, h_, e)
+\* act = "Export": genesis export and re-import of the chain that holds the client (C16): the client is what it was
+StepRes(s, h_, e) == IF e.act = "Init" THEN InitRes(s, e)
+                     ELSE IF e.act = "Export" THEN [ok |-> TRUE, st |-> s]
+                     ELSE HdrRes(s, h_, e)
 
 (* History after a step that was accepted (by the model in TLC's runs, by the real code in traces). *)
 HistAfter(s, h_, e, ok) ==
-  IF ~ok THEN h_
+  IF ~ok \/ e.act = "Export" THEN h_
   ELSE IF e.act = "Init"
   THEN [sealed |-> {<<x[1], x[2], Card(e.vals)>> : x \in e.rec}, annAt |-> e.num, annOld |-> e.vals,
         annSet |-> e.pend, start |-> e.num]
